@@ -560,7 +560,14 @@ def tree_pattern(rng, entries, ext=True, globstar=True, maxseg=4, absolute_prefi
             segs.append((('gstarlong',),))
             continue
         elif r < 0.22:
-            segs.append(tuple(('lit', c) for c in rng.choice(['.', '..'])))
+            dots = rng.choice(['.', '..'])
+            spelling = rng.random()
+            if spelling < 0.7:
+                segs.append(tuple(('lit', c) for c in dots))
+            elif spelling < 0.85:
+                segs.append(tuple(('elit', c) for c in dots))           # `\.\.`: still written literally
+            else:
+                segs.append((('lit', '.'),) + tuple(('elit', c) for c in dots[1:]) if len(dots) > 1 else (('elit', '.'),))
         segs.append(generalise_name(rng, nm, ext))
     if globstar and rng.random() < 0.15:
         segs.append((('gstar',),))
